@@ -82,9 +82,11 @@ Definition obs (x : out) : sout :=
   | OFault => SFault
   end.
 
-(* arguments representable in the C parameter types: an id is a uintptr_t *)
+(* arguments representable in the parameter types: an id is a uintptr_t, the
+   argument of the C++ wrapper type_traits::get is an int *)
 Definition op_wf (o : op) : Prop :=
   match o with
   | OpTraits id => id < 2 ^ g_WordBits
+  | OpWrapTraits t => (- 2 ^ (Z.of_N g_IntBits - 1) <= t < 2 ^ (Z.of_N g_IntBits - 1))%Z
   | _ => True
   end.
